@@ -307,6 +307,34 @@ func c09HtmlShowN(n c09HtmlN) string {
 
 func c09HtmlIsEvent(n string) bool { return len(n) > 2 && n[0] == 'o' && n[1] == 'n' }
 
+var c09HtmlInlineM = func() *minify.M {
+	m := minify.New()
+	m.AddFunc("text/css", mincss.Minify)
+	m.AddFunc("application/javascript", minjs.Minify)
+	return m
+}()
+
+// what a style / on* attribute should hold after minification: the sub-minifier applied (inline) to the DECODED input
+// value, as a browser would see it; ok=false: the sub-minifier rejects that value
+func c09HtmlEmbeddedWant(name, dec string) (string, bool) {
+	v := strings.Trim(dec, " \t\n\r\f")
+	mt := "text/css"
+	if name != "style" {
+		mt = "application/javascript"
+		if len(v) >= 11 && strings.EqualFold(v[:11], "javascript:") {
+			v = v[11:]
+		}
+	}
+	var w bytes.Buffer
+	var err error
+	if crash := h.Safely(20*time.Second, func() {
+		err = c09HtmlInlineM.MinifyMimetype([]byte(mt), &w, strings.NewReader(v), map[string]string{"inline": "1"})
+	}); crash != "" || err != nil {
+		return "", false
+	}
+	return w.String(), true
+}
+
 // attributes: the output list must be the input list (duplicates already removed by the tokenizer) without some
 // droppable attributes; names equal (meta content → charset is the one rename); values of attributes that no other
 // function rewrites are equal after decoding, modulo whitespace collapsing/trimming
@@ -316,6 +344,12 @@ func c09HtmlCmpAttrs(tag string, a, b []c09HtmlAttr, cfg c09HtmlCfg) string {
 		if j < len(b) && (b[j].name == x.name || tag == "meta" && x.name == "content" && b[j].name == "charset") {
 			y := b[j]
 			j++
+			if cfg.sub && tag != "x-el" && (x.name == "style" || c09HtmlIsEvent(x.name)) {
+				if want, ok := c09HtmlEmbeddedWant(x.name, x.dec); ok && want != y.dec {
+					return fmt.Sprintf("embedded: attribute %s of <%s>: decoded value %q became %q, the sub-minifier gives %q for the decoded value", x.name, tag, x.dec, y.dec, want)
+				}
+				continue
+			}
 			if y.name != x.name || c09HtmlRewritten[x.name] || c09HtmlURLAttr[x.name] || c09HtmlIsEvent(x.name) || c09HtmlBoolAttr[x.name] && y.q == "m" {
 				continue
 			}
@@ -361,6 +395,9 @@ func c09HtmlCompareSig(in, out []c09HtmlItem, cfg c09HtmlCfg) (string, string) {
 			}
 		case 'S':
 			if d := c09HtmlCmpAttrs(x.name, x.attrs, y.attrs, cfg); d != "" {
+				if strings.HasPrefix(d, "embedded: ") {
+					return fmt.Sprintf("token %d: %s", i, d), "embedded"
+				}
 				return fmt.Sprintf("token %d: %s", i, d), "attr"
 			}
 		}
@@ -579,7 +616,7 @@ var c09HtmlTagLike = regexp.MustCompile(`<[/!]?-?$`)
 var c09HtmlExplains = map[string]string{
 	"K-C09-HTML-1": "text tag extra comment", "K-C09-HTML-2": "raw text tag extra", "K-C09-HTML-3": "text tag extra comment",
 	"K-C09-HTML-4": "text tag extra", "K-C09-HTML-5": "text tag extra", "K-C09-HTML-6": "raw text tag extra comment", "K-C09-HTML-7": "raw text tag extra comment",
-	"K-C09-HTML-8": "raw text tag extra comment secondpass", "K-C09-HTML-9": "raw text tag extra secondpass", "K-C03-8": "text", "K-C03-11": "raw text tag extra",
+	"K-C09-HTML-8": "raw text tag extra comment secondpass", "K-C09-HTML-9": "raw text tag extra secondpass", "K-C03-8": "text", "K-C03-11": "raw text tag extra", "OBS-embedded-ref": "embedded",
 }
 
 // c09HtmlKnownClasses names the known findings (of this slice and of C03) whose narrow trigger the generated document
@@ -625,6 +662,9 @@ func c09HtmlKnownClasses(in []byte, items []c09HtmlItem) (ks []string) {
 			}
 		}
 	}
+	if c09HtmlEmbeddedRef(items) {
+		ks = append(ks, "OBS-embedded-ref")
+	}
 	if has("<iframe") && c09HtmlIframeEnd.Match(in) {
 		ks = append(ks, "K-C09-HTML-9")
 	}
@@ -658,6 +698,22 @@ func c09HtmlKnownClasses(in []byte, items []c09HtmlItem) (ks []string) {
 		ks = append(ks, "K-C09-HTML-4")
 	}
 	return
+}
+
+// OBS-embedded-ref: html.go hands a style / on* value to the CSS / JS minifier with some references still in it
+// (hasReferenceGlue leaves the whole value alone, e.g. `&#39;a;b&#39;`; non-ASCII and NUL/CR references always stay):
+// the sub-minifier then tokenises `&#39;` as delimiters. C03/C11 business (value semantics), recorded as an observation.
+func c09HtmlEmbeddedRef(items []c09HtmlItem) bool {
+	for _, it := range items {
+		if it.kind == 'S' {
+			for _, a := range it.attrs {
+				if (a.name == "style" || c09HtmlIsEvent(a.name)) && strings.Contains(a.raw, "&") {
+					return true
+				}
+			}
+		}
+	}
+	return false
 }
 
 func c09HtmlExcused(ks []string, sig string) string {
@@ -725,6 +781,9 @@ func c09HtmlHazards(st *h.Stage, in, out []c09HtmlItem, outBytes []byte) {
 				}
 				if a.raw != a.dec {
 					st.Tag("hazard=attr-reference-kept")
+					if a.name == "style" || c09HtmlIsEvent(a.name) {
+						st.Tag("hazard=quote-ref-in-embedded-attr")
+					}
 				}
 				if strings.Contains(a.dec, "&") && a.raw == a.dec {
 					st.Tag("hazard=attr-bare-amp")
@@ -969,11 +1028,26 @@ func c09HtmlWriteAttr(name, v string, q int) (string, bool) {
 
 var c09HtmlAttrTags = []string{"a", "div", "meta", "input", "x-el", "img", "p", "span", "td", "link", "button"}
 var c09HtmlAttrNames = []string{"title", "data-x", "alt", "content", "property", "about", "class", "id", "value", "placeholder", "href", "src", "lang", "name", "rel", "aria-label", "x"}
+var c09HtmlEmbeddedVals = []string{"content:&#39;a;b&#39;", "content:&#39;a&#39;;x:1", "a:&#39;;b:1", "font-family:&#39;A  B&#39;", "font-family:&quot;A B&quot;, serif", "a:url(&#39;x&#39;) 1", "color:red;;", "content:\"&amp;\"",
+	"content:'&lt;'", "background:url(a.png?x=1&amp;y=2)", "a:&amp;#39;1", "margin:0px", "content:&#34;x&#34;", "content:'&copy;'"}
+var c09HtmlEmbeddedJS = []string{"a = b ? \"x\" : &#39;y&#39;", "a=&#39;1&#39;+2", "f(&quot;x&quot;)", "return a &lt; b", "if (a &amp;&amp; b) c()", "x = '&amp;lt;'", "javascript:g(&#39;x&#39;)", "a = 1 &lt;!--b", "s = &quot;&lt;/script&gt;&quot;"}
+
 var c09HtmlAfterAttr = []string{"", "", " b", " c=d", " e='f g'", " hidden", "/", " /", " x=y/"}
 
 func c09HtmlGenAttrDoc(r *h.RNG, v string, q int) ([]byte, bool) {
 	tag := c09HtmlPick(r, c09HtmlAttrTags)
-	a, ok := c09HtmlWriteAttr(c09HtmlPick(r, c09HtmlAttrNames), v, q)
+	name := c09HtmlPick(r, c09HtmlAttrNames)
+	if r.Chance(8) {
+		// style / on* attribute with references to quotes, `&`, `<` in all quote forms (the value is already written with references)
+		name, v = "style", c09HtmlPick(r, c09HtmlEmbeddedVals)
+		if r.Bool() {
+			name, v = c09HtmlPick(r, []string{"onclick", "onload", "onmouseover"}), c09HtmlPick(r, c09HtmlEmbeddedJS)
+		}
+		if q == 1 {
+			v = strings.ReplaceAll(v, "'", "&apos;")
+		}
+	}
+	a, ok := c09HtmlWriteAttr(name, v, q)
 	if !ok {
 		return nil, false
 	}
